@@ -1209,6 +1209,12 @@ pub fn merge(id: &str, partials: &[PathBuf], driver_notes: &Value, evidence_path
         }
         return 1;
     }
+    // a single-case replay is judged on violations only
+    let is_replay = driver_notes["replay"].as_bool().unwrap_or(false);
+    if is_replay {
+        println!("REPLAY property={} no violation reproduced (evaluations={})", id, evaluations);
+        return 0;
+    }
     let floor_fail = evaluations == 0 || nontrivial.len() < 2;
     if floor_fail {
         println!(
